@@ -84,6 +84,14 @@ def collide(rng, pool, history, targets):
     j = rng.randrange(len(history))
     e, tg = history[j], targets[j]
     k = e[0]
+    if rng.random() < 0.15 and len(e) > 1 and isinstance(e[1], str):
+        # the same *country* through another entry point (country lookups, spec table, pycountry are shared)
+        if k.startswith("iban") and len(e[1]) >= 2 and e[1][:2].upper() in pool["bics"]["by_country"]:
+            text = rng.choice(pool["bics"]["by_country"][e[1][:2].upper()])
+            return rng.choice([["bic", text, {}], ["bic_props", text], ["bic_validate", text, False]]), None
+        if k.startswith("bic") and len(e[1]) >= 6 and pool["valid_ibans"].get(e[1][4:6].upper()):
+            text = rng.choice(pool["valid_ibans"][e[1][4:6].upper()])
+            return rng.choice([["iban_props", text], ["iban", text, {}]]), None
     if k == "iban" and isinstance(e[1], str):
         flags = dict(e[2])
         which = rng.randrange(3)
@@ -129,6 +137,13 @@ def collide(rng, pool, history, targets):
 
 def gen_ref_op(rng, producers, history, targets):
     j = producers[rng.randrange(len(producers))]
+    # object bursts: keep working on the object the previous op used (flag-changing calls on one object)
+    if history and rng.random() < 0.45:
+        prev = ops.refs_of(history[-1])
+        if prev and prev[0] in producers:
+            j = prev[0]
+        elif (len(history) - 1) in producers:
+            j = len(history) - 1
     tg = targets[j]
     r = rng.randrange(12)
     ref = {"ref": j}
@@ -194,11 +209,18 @@ def gen_history(index: int, vseed: int, pool: dict, tier: str) -> dict:
             op, tg = gen.gen_op(rng, pool, weights)
         planned = rng.random() < p_abort
         if planned:
-            faults.append({"at_op": j, "kind": rng.choice(["SimAbort", "MemoryError"]), "frac": rng.random()})
+            faults.append({"at_op": len(history), "kind": rng.choice(["SimAbort", "MemoryError"]), "frac": rng.random()})
         elif op[0] in PRODUCERS:
-            producers.append(j)
+            producers.append(len(history))
         history.append(op)
         targets.append(tg)
+        if not planned and op[0] in PRODUCERS and rng.random() < 0.08 and len(history) < MAX_LEN - 3:
+            # flag-changing calls on the object just created: strict / lenient validation back to back, then a read
+            me = {"ref": len(history) - 1}
+            first_flag = bool(rng.randrange(2))
+            for follow in (["revalidate", me, first_flag], ["revalidate", me, not first_flag], ["props", me]):
+                history.append(follow)
+                targets.append(tg)
     full_tail = rng.random() < (0.02 if tier == "quick" else 0.05)
     ntail = len(BATTERY) if full_tail else rng.choice([0, 3, 6, 6])
     tail = BATTERY if full_tail else rng.sample(BATTERY, min(ntail, len(BATTERY)))
